@@ -28,6 +28,13 @@ and the play replies, `SrvPkt.wf`, `Profile.sbDistinct` (C11Wire); the RSA law `
 the field `Rsa.law` of the parameter, used through `matching pk priv`; the zlib law is the field
 `Zlib.rt`.
 
+Scope of the play part.  `Session.clientBytes` frames every play reply with ONE threshold, the one
+of the final login mode: that is what the client writes when the server's play stream contains no
+play-state "set compression" packet (`SrvPkt.isSetCompression`; such a packet exists only for
+protocols ≤ 47) — `C11Wire.server_recovers_replies_one_threshold`, last clause.  With such packets
+the threshold changes inside the play phase; that is `C11Wire.client_wire_is_frames_of_replies` /
+`server_recovers_replies` (a threshold per reply), not composed into the session here.
+
 Only property theorems and non-vacuity examples live here; helper lemmas and the concrete example
 sessions are in `Lemmas/SessionWire.lean`.
 -/
@@ -171,7 +178,7 @@ of its own layer — `HsWire.serverRecv` (C09Wire) gets the handshake record and
 `loginReg`, the register carried over from the login part (resp. on a plain socket if no cipher was
 installed) and its compression flag is the one of the final login mode.  These are literally the
 three layer theorems `C09Wire.server_recovers_first_frames`, `C10Wire.server_recovers_outbox`,
-`C11Wire.server_recovers_replies`; the components are those `serverRecoverSession` returns in (b). -/
+`C11Wire.server_recovers_replies_one_threshold`; the components are those `serverRecoverSession` returns in (b). -/
 theorem layer_servers_agree (S : Session) (z : Zlib) (EK : Bytes → Bytes → Bytes)
     (priv : Bytes) (segsH segsL segsP : Segs)
     (hfirst : HsWire.FirstOK S.lsId S.conn S.plan) (hplay : ReachesPlay S)
@@ -230,7 +237,7 @@ theorem layer_servers_agree (S : Session) (z : Zlib) (EK : Bytes → Bytes → B
     cases hc : (finalMode S).cipher with
     | some sec =>
       rw [hc] at hwire
-      obtain ⟨r, hr, hsrv, hdue⟩ := C11Wire.server_recovers_replies (cfb8Pair (EK S.lp.secret))
+      obtain ⟨r, hr, hsrv, hdue, -⟩ := C11Wire.server_recovers_replies_one_threshold (cfb8Pair (EK S.lp.secret))
         (loginReg z.toZlibOps (EK S.lp.secret) S) z (finalMode S).threshold S.profile S.pkts
         S.peerOpen S.capW S.capR hR hSb hwf hokP
       have hw : r.wire = playReplies S := by unfold playReplies; rw [hr]
@@ -240,7 +247,7 @@ theorem layer_servers_agree (S : Session) (z : Zlib) (EK : Bytes → Bytes → B
       exact (playChunks_some _ _ _ _ _ _).symm
     | none =>
       rw [hc] at hwire
-      obtain ⟨r, hr, hsrv, hdue⟩ := C11Wire.server_recovers_replies PlayWire.plainPair ()
+      obtain ⟨r, hr, hsrv, hdue, -⟩ := C11Wire.server_recovers_replies_one_threshold PlayWire.plainPair ()
         z (finalMode S).threshold S.profile S.pkts S.peerOpen S.capW S.capR hR hSb hwf hokP
       have hw : r.wire = playReplies S := by unfold playReplies; rw [hr]
       rw [← hdue hpo]
